@@ -202,10 +202,12 @@ static int upipe_ts_align_control(struct upipe *upipe,
 static void upipe_ts_align_free(struct upipe *upipe)
 {
     struct upipe_ts_align *upipe_ts_align = upipe_ts_align_from_upipe(upipe);
-    upipe_throw_dead(upipe);
-
+    /* release the inner pipes first: their last packets and events are
+     * forwarded through this pipe */
     upipe_ts_align_clean_bin_input(upipe);
     upipe_ts_align_clean_bin_output(upipe);
+    upipe_throw_dead(upipe);
+
     uprobe_clean(&upipe_ts_align->proxy_probe);
     upipe_ts_align_clean_urefcount(upipe);
     upipe_ts_align_free_void(upipe);
